@@ -5,14 +5,19 @@ REGISTRY = []
 
 
 class Loop:
-    def __init__(self, inv, variant=None):
-        # inv: list of (label, expr-text)
+    def __init__(self, inv, variant=None, pre=(), step=()):
+        # inv: list of (label, expr-text); pre: ghost statements (or callables taking the machine) run once before the
+        # loop's init check; step: ghost statements run at the end of every iteration, before the preserve check
+        self.pre, self.step = list(pre), list(step)
         self.inv = [(("i%d" % i, x) if isinstance(x, str) else x) for i, x in enumerate(inv)]
         self.variant = variant
 
 
 class Yield:
-    def __init__(self, post, ghost_after=(), rely=None, ghost_before=(), hints=()):
+    def __init__(self, post, ghost_after=(), rely=None, ghost_before=(), hints=(), instances=()):
+        # instances: instances of an axiom the contract declares among its assumptions (e.g. periodicity of sin at this
+        # yield's argument); assumed, never proved - each must be listed in the contract's `assumptions`
+        self.instances = [(("a%d" % i, x) if isinstance(x, str) else x) for i, x in enumerate(instances)]
         # hints: intermediate assertions; each is proved (an obligation of its
         # own) in the state at the yield and only then used as a hypothesis
         self.hints = [(("h%d" % i, x) if isinstance(x, str) else x) for i, x in enumerate(hints)]
